@@ -22,13 +22,13 @@ def Zf (s0 : St α) (scan : Scan) (W : List Int) : Nat :=
     gapsFrom s0.rule (Wat s0 scan.aboveStart) true W
 
 /-- `update_active_edges` with the pending windings read off the state -/
-theorem updateActiveEdges_relS (s0 : St α) (scan : Scan) (hok : ScanOk s0 scan) (hH : HorizAgree s0.tolerance)
+theorem updateActiveEdges_relS (s0 : St α) (scan : Scan) (hok : ScanOk s0 scan) (hG : ScanAgree s0 scan)
     (hUp : NextUpOk α ∨ mAssert ∈ A) (sc : Scan) :
     ⦃fun s => ⌜sc = aboveResult scan ∧ RelZ s0 scan (Zf s0 scan (bwOf s.below)) s⌝⦄
     (updateActiveEdges sc : SM α Unit)
     ⦃safePost A fun _ s' => ∃ W, NewSt s0 scan (Zf s0 scan W) W s'⦄ := by
   intro s hs
-  have h := updateActiveEdges_relU (A := A) s0 scan hok hH (Zf s0 scan (bwOf s.below)) (bwOf s.below) hUp sc
+  have h := updateActiveEdges_relU (A := A) s0 scan hok hG (Zf s0 scan (bwOf s.below)) (bwOf s.below) hUp sc
   have h1 := h s ⟨hs.1, ⟨hs.2, rfl⟩⟩
   refine (wp (updateActiveEdges sc : SM α Unit)).mono _ _ ?_ s h1
   exact ⟨fun _ s' hs' => ⟨_, hs'⟩, fun e s' hs' => hs', trivial⟩
@@ -61,13 +61,13 @@ theorem processEvents_eq : (processEvents : SM α (Option IErr)) = (do
 
 
 theorem evBody_rel (s0 : St α) (scan : Scan) (hok : ScanOk s0 scan) (hsem : ScanSem s0 scan) (hc : Coh s0)
-    (hH : HorizAgree s0.tolerance) (hUp : NextUpOk α ∨ mAssert ∈ A) :
+    (hG : ScanAgree s0 scan) (hUp : NextUpOk α ∨ mAssert ∈ A) :
     ⦃fun s => ⌜Rel0 s0 s⌝⦄ (evBody scan : SM α (Option IErr))
     ⦃safePost A fun r s' => r = none ∧ ∃ W, NewSt s0 scan (Zf s0 scan W) W s'⦄ := by
   unfold evBody
   have h1 := processEdgesAbove_rel (α := α) (A := A) s0 scan hok hsem hc
-  have h2 := processEdgesBelow_rel (α := α) (A := A) s0 scan hok hsem hc hH
-  have h3 := updateActiveEdges_relS (α := α) (A := A) s0 scan hok hH hUp
+  have h2 := processEdgesBelow_rel (α := α) (A := A) s0 scan hok hsem hc hG
+  have h3 := updateActiveEdges_relS (α := α) (A := A) s0 scan hok hG hUp
   mvcgen [h1, h2, h3]
   all_goals first
     | assumption
@@ -91,11 +91,12 @@ def EvPost (s1 : St α) (r : Option IErr) (s' : St α) : Prop :=
       s'.tolerance = s1.tolerance
 
 set_option maxHeartbeats 1000000 in
-theorem processEvents_coh_at (s1 : St α) (hc : Coh s1) (hH : HorizAgree s1.tolerance)
+theorem processEvents_coh_at (s1 : St α) (hc : Coh s1)
+    (hG : ∀ scan, scanActiveEdges s1 = .ok scan → ScanAgree s1 scan)
     (hUp : NextUpOk α ∨ mAssert ∈ A) :
     ⦃fun s => ⌜s = s1⌝⦄ (processEvents : SM α (Option IErr)) ⦃safePost A fun r s' => EvPost s1 r s'⦄ := by
   rw [processEvents_eq]
-  have hb := fun scan hok hsem => evBody_rel (α := α) (A := A) s1 scan hok hsem hc hH hUp
+  have hb := fun scan hok hsem hg => evBody_rel (α := α) (A := A) s1 scan hok hsem hc hg hUp
   mvcgen [mark, hb]
   all_goals
     have heq := ‹(_ : St α) = s1›
@@ -105,6 +106,7 @@ theorem processEvents_coh_at (s1 : St α) (hc : Coh s1) (hH : HorizAgree s1.tole
        unfold EvPost; rw [hx]; exact ⟨rfl, rfl, rfl, rfl, rfl⟩)
     | exact (of_scan_both ‹scanActiveEdges _ = Except.ok _›).1
     | exact (of_scan_both ‹scanActiveEdges _ = Except.ok _›).2
+    | exact hG _ ‹scanActiveEdges _ = Except.ok _›
     | exact ⟨rfl, rfl, rfl, rfl⟩
     | (have hx := ‹scanActiveEdges _ = Except.ok _›
        intro hr hW
